@@ -275,9 +275,11 @@ class Report:
                            "description": desc, "replay": replay}, f, indent=1)
             lines.append("VIOLATION property=%s replay=%s" % (self.pid, path))
             rc = 1
+        seen_broken = set()
         for what, detail, found in self.broken:
-            if found:
+            if found or what in seen_broken:
                 continue
+            seen_broken.add(what)
             reported += 1
             path = os.path.join(VERIF, "replays", "%s-broken-%s-%d.json" % (self.pid, re.sub(r"[^A-Za-z0-9_.-]", "_", what)[:60], self.seed))
             with open(path, "w") as f:
